@@ -9,8 +9,7 @@
    The Python harness replaces `.chain` of real SevenZipCompressor / SevenZipDecompressor
    objects by Python mirrors of these toy stages (and the `.cipher` of real AESCompressor /
    AESDecompressor objects by a mirror of the toy cipher) and compares every call.
-   Definitions (and two lemmas tying the exception-aware loops to Decomp's); the theorems
-   are in Decomp.v, Comp.v, Aes.v, RoundTrip.v. *)
+   Definitions only; the theorems about them are in Decomp.v, Comp.v, Aes.v, RoundTrip.v. *)
 From P7 Require Import Prelude Crc32 Decomp Comp RoundTrip.
 From P7 Require Aes.
 Open Scope Z_scope.
@@ -71,72 +70,14 @@ Definition mix_run_t (t : tree) : tree :=
                                  (of_TI (tnth t 2)) (of_TI (tnth t 3)) (of_bytes (tnth t 4)))
                      (map t_call (of_TL (tnth t 5))))).
 
-(* Worker.decompress / _extract_single over these stages: worker_decompress and
-   extract_members with the one addition that a call during which the AES stage raised
-   ends everything with Err EOther (lemma mix_worker_ok: whenever it returns Ok it is
-   Decomp.worker_decompress) *)
-Fixpoint mix_worker (fuel : nat) (st : dstate dstage) (size max_block : Z) (sched : list nat)
-  : res (dstate dstage * bytes) :=
-  if size >? 0 then
-    match fuel with
-    | O => Err EFuel
-    | S fuel' =>
-      do r <- decompress mix_dstep st (Z.min size max_block) (sched_hd st sched);
-      let '(st', tmp) := r in
-      if existsb dstage_failed (stages st') then Err EOther
-      else
-        let rem := if zlen tmp >? 0 then size - zlen tmp else size in
-        if rem <=? 0 then Ok (st', tmp)
-        else
-          do r' <- mix_worker fuel' st' rem max_block (tl sched);
-          let '(st'', out) := r' in
-          Ok (st'', tmp ++ out)
-    end
-  else Ok (st, []).
-
-Fixpoint mix_extract (fuel : nat) (st : dstate dstage) (sizes : list Z) (mb : Z)
-         (scheds : list (list nat)) : res (dstate dstage * list bytes) :=
-  match sizes with
-  | [] => Ok (st, [])
-  | size :: sizes' =>
-    do r <- mix_worker fuel st size mb (hd [] scheds);
-    let '(st1, out) := r in
-    do r' <- mix_extract fuel st1 sizes' mb (tl scheds);
-    let '(st2, outs) := r' in
-    Ok (st2, out :: outs)
-  end.
-
-Lemma mix_worker_ok (fuel : nat) : forall st size mb sched r,
-  mix_worker fuel st size mb sched = Ok r -> worker_decompress mix_dstep fuel st size mb sched = Ok r.
-Proof.
-  induction fuel as [|fuel IH]; intros st size mb sched r H; simpl in *.
-  - destruct (size >? 0); [discriminate|exact H].
-  - destruct (size >? 0); [|exact H].
-    destruct (decompress mix_dstep st (Z.min size mb) (sched_hd st sched)) as [[st' tmp]|e]; [|discriminate].
-    cbn [bind] in *. destruct (existsb dstage_failed (stages st')); [discriminate|].
-    destruct ((if zlen tmp >? 0 then size - zlen tmp else size) <=? 0); [exact H|].
-    destruct (mix_worker fuel st' (if zlen tmp >? 0 then size - zlen tmp else size) mb (tl sched))
-      as [[st'' out]|e] eqn:Hm; [|discriminate].
-    rewrite (IH _ _ _ _ _ Hm). exact H.
-Qed.
-
-Lemma mix_extract_ok (fuel : nat) (mb : Z) : forall sizes st scheds r,
-  mix_extract fuel st sizes mb scheds = Ok r -> extract_members mix_dstep fuel st sizes mb scheds = Ok r.
-Proof.
-  induction sizes as [|size sizes IH]; intros st scheds r H; simpl in *; [exact H|].
-  destruct (mix_worker fuel st size mb (hd [] scheds)) as [[st1 out]|e] eqn:Hw; [|discriminate].
-  rewrite (mix_worker_ok _ _ _ _ _ _ Hw). cbn [bind] in *.
-  destruct (mix_extract fuel st1 sizes mb (tl scheds)) as [[st2 outs]|e] eqn:Hx; [|discriminate].
-  rewrite (IH _ _ _ Hx). exact H.
-Qed.
-
 (* args: [fuel; states; unpacksizes; input_size; block_size; packed; sizes; mb; scheds]
-   result: res [member bytes ...]; Err EOther if the AES stage raised on the way *)
+   result: res [member bytes ...]; Err EOther if the AES stage raised on the way, Err EBad7z if the
+   stall guard of Worker.decompress fired (RoundTrip.gworker / gextract) *)
 Definition mix_extract_t (t : tree) : tree :=
   let st0 := init_state (map t_dstage (of_TL (tnth t 1))) (map of_TI (of_TL (tnth t 2)))
                         (of_TI (tnth t 3)) (of_TI (tnth t 4)) (of_bytes (tnth t 5)) in
   t_res (fun l => TL (map t_bytes l))
-        (do r <- mix_extract (Z.to_nat (of_TI (tnth t 0))) st0
+        (do r <- gextract mix_dstep dstage_failed (Z.to_nat (of_TI (tnth t 0))) st0
                              (map of_TI (of_TL (tnth t 6))) (of_TI (tnth t 7))
                              (map (fun s => map (fun x => Z.to_nat (of_TI x)) (of_TL s))
                                   (of_TL (tnth t 8)));
